@@ -712,6 +712,27 @@ def _aff_eval(facts, fn, e, env, depth=0):
             if lo_ <= 0 or lo_.bit_length() != hi_.bit_length():
                 raise _NoAbs("leading_zeros not constant over the class")
             return _Aff(32 - lo_.bit_length())
+        if short == "ilog2":
+            a = _aff_eval(facts, fn, e[2][0], env, depth)
+            lo_, hi_ = a.rng()
+            if lo_ <= 0:
+                raise _NoAbs("ilog2 of 0 (panics)")
+            if lo_.bit_length() != hi_.bit_length():
+                raise _NoAbs("ilog2 not constant over the class")
+            return _Aff(lo_.bit_length() - 1)
+        if short == "trailing_zeros" or short == "count_ones":
+            a = _aff_eval(facts, fn, e[2][0], env, depth)
+            if a.const:
+                return _Aff((bin(a.off).count("1")) if short == "count_ones" else ((a.off & -a.off).bit_length() - 1 if a.off else 32))
+            raise _NoAbs("%s of a non-constant" % short)
+        if short in ("wrapping_sub", "wrapping_add") and "u32" in name:
+            a = _aff_eval(facts, fn, e[2][0], env, depth)
+            b2 = _aff_eval(facts, fn, e[2][1], env, depth)
+            if b2.const and a.iv is None:
+                r = _Aff(a.off + (b2.off if short == "wrapping_add" else -b2.off), a.lo, a.hi)
+                if r.rng()[0] >= 0 and r.rng()[1] < U32:
+                    return r
+            raise _NoAbs("%s may wrap" % short)
         b = facts.body("nucleo", name)
         if b is not None and depth < 4:
             from cfg import decision_paths
